@@ -12,8 +12,9 @@ declared columns trimmed from the end) is compared with the implementation on ev
 and `rstrip_refines` proves that on every coherent run-length state it denotes the grid spec and leaves a
 coherent state — so the three laws below hold of the run-length code-level model too
 (`rstrip_table_idempotent`, `rstrip_table_keeps`).  `transpose` is modelled at the grid level (the code
-works on the expanded cells of `traverse`); `optimize_width` and CSV export/import are decided by the
-oracle only.
+works on the expanded cells of `traverse`); `optimize_width` has a run-length model (`tblOptimize`, compared with the
+implementation on every case) with its structural theorem (`optimize_width_coherent_and_fits`); its value laws and CSV
+export/import are decided by the oracle only.
 -/
 namespace Odf.C17
 open Odf.Transform Odf.Grid Odf.Span
@@ -73,6 +74,18 @@ theorem transpose_table_twice (t : Odf.Table.Tbl) (hw : 0 < maxLen (Odf.Table.ab
       (Odf.Table.absT t).rows.map (fun r => padRow r (maxLen (Odf.Table.absT t).rows)) := by
   rw [tblTranspose_refines, tblTranspose_refines]
   exact transposePad_involutive _ hw
+
+/-- **`Table.optimize_width()`** (run-length model `tblOptimize`: trailing empty row elements but one deleted, the kept one
+    counted once, every row's trailing REPEATED empty cell element shortened to the largest minimized row width, declared
+    columns trimmed to it): the result is a coherent table and no row is wider than the declared columns -/
+theorem optimize_width_coherent_and_fits (t : Odf.Table.Tbl) (h : Odf.Table.Inv t) (hfit : Odf.Table.GridFit (Odf.Table.absT t)) :
+    Odf.Table.Inv (tblOptimize t) ∧ Odf.Table.GridFit (Odf.Table.absT (tblOptimize t)) :=
+  tblOptimize_inv_fit t h hfit
+
+example :
+    let t := Odf.Table.parse [(0, 5)] [([(5, 1), (0, 4)], 1), ([(0, 5)], 1), ([(0, 5)], 2)]
+    (tblOptimize t).rows.runs = [([(5, 1), (0, 1)], 1), ([(0, 2)], 1)] ∧ (tblOptimize t).cols.runs = [(0, 2)] := by
+  decide +kernel
 
 /-! non-vacuity: a ragged run-length table with styled empties (payload 1) and trailing empties -/
 example :
